@@ -3,6 +3,8 @@ defaults, colliding names; compiled with exec in a namespace holding annotation 
 The undecorated twin is kept for differential comparison."""
 from __future__ import annotations
 
+import sys
+
 import inspect
 
 import numpy as np
@@ -18,7 +20,7 @@ NAME_POOL = [
 ]
 FN_NAMES = ["f", "T0", "default0", "ret0", "fn0", "check_single_arg", "wrapped_fn", "x"]
 
-ANN_KINDS = ["none", "int", "str", "arr"]
+ANN_KINDS = ["none", "int", "str", "arr", "fwd", "int", "arr", "fwdl"]  # fwd / fwdl: partly stringified annotations, Optional["VfNode"] / list["VfNode"]
 
 
 class Obj:
@@ -32,6 +34,10 @@ class Obj:
 
 
 def good_value(kind, i):
+    if kind == "fwd":
+        return Obj(i)
+    if kind == "fwdl":
+        return [Obj(i)]
     if kind == "int":
         return 1000 + i  # > 256: not interned small ints, identity is meaningful
     if kind == "str":
@@ -42,6 +48,8 @@ def good_value(kind, i):
 
 
 def bad_value(kind, i):
+    if kind in ("fwd", "fwdl"):
+        return f"not-a-node-{i}"
     if kind == "int":
         return f"not-an-int-{i}"
     if kind == "str":
@@ -60,11 +68,28 @@ def ann_object(kind, i):
         return Shaped[np.ndarray, f"ax{i}"]
     if kind == "obj":
         return Obj
+    if kind == "fwd":
+        import typing
+
+        return typing.Optional["VfNode"]  # (the forward reference resolves in the function's module, VfNode = Obj)
+    if kind == "fwdl":
+        return list["VfNode"]
     if kind == "iterator":
         import collections.abc
 
         return collections.abc.Iterator[int]  # (typeguard wraps a returned generator in a checking proxy if it is left to handle it)
     return None
+
+
+def ann_object_resolved(kind, i):
+    """for annotations assigned as objects (lambda.__annotations__): the forward reference already resolved"""
+    if kind == "fwd":
+        import typing
+
+        return typing.Optional[Obj]
+    if kind == "fwdl":
+        return list[Obj]
+    return ann_object(kind, i)
 
 
 @st.composite
@@ -126,6 +151,8 @@ def render(params, fname, *, kind="def", ret_ann=None, ns=None):
         if p["kind"] == "vk":
             s = "**" + s
         a = ann_object(p["ann"], i)
+        if p["ann"] in ("fwd", "fwdl"):
+            ns["VfNode"] = Obj
         if a is not None and kind != "lambda":
             ns[f"__A{i}"] = a
             s += f": __A{i}"
@@ -153,9 +180,21 @@ def render(params, fname, *, kind="def", ret_ann=None, ns=None):
     return src, ns
 
 
-def compile_fn(src, ns, fname):
+def compile_fn(src, ns, fname, postponed=True):
+    """postponed=True: the generated module behaves as if it began with 'from __future__ import annotations' (all annotations
+    are strings resolved through the module's globals); False: annotations are evaluated objects."""
+    import __future__
+
     ns.setdefault("__name__", "vf_generated_sig")
-    exec(compile(src, "<vf-sig>", "exec"), ns)
+    if ns["__name__"] == "vf_generated_sig" and "vf_generated_sig" not in sys.modules:
+        # the generated functions claim to live in an importable module in which the forward-referenced name exists (typecheckers
+        # resolve relative forward references through sys.modules[func.__module__])
+        import types
+
+        mod = types.ModuleType("vf_generated_sig")
+        mod.VfNode = Obj
+        sys.modules["vf_generated_sig"] = mod
+    exec(compile(src, "<vf-sig>", "exec", flags=__future__.annotations.compiler_flag if postponed else 0, dont_inherit=True), ns)
     return ns[fname]
 
 
